@@ -393,6 +393,19 @@ func runCase(idx int, c kase, detail bool) (out caseOut) {
 			addFail("post-state", msg, msg, p)
 		}
 	}
+	// a call that was not served also fails its answer and post-state; keep the primary failure only
+	for _, f := range out.Fails {
+		if f.Kind == "not-served" {
+			var keep []fail
+			for _, g := range out.Fails {
+				if g.Kind != "wrong-answer" && g.Kind != "post-state" {
+					keep = append(keep, g)
+				}
+			}
+			out.Fails = keep
+			break
+		}
+	}
 	return out
 }
 
@@ -459,7 +472,7 @@ func observe(cwd, tmp string) realObs {
 }
 
 // realEffects compares the real process with the baseline, reports what changed and restores it.
-func realEffects(b *realObs) []fail {
+func realEffects(b *realObs, src string) []fail {
 	var out []fail
 	add := func(kind, what, obs string) {
 		out = append(out, fail{"real-" + kind, what, ev.Clip(obs, 400), "real process untouched"})
@@ -486,6 +499,10 @@ func realEffects(b *realObs) []fail {
 		es, _ := os.ReadDir(d)
 		for _, e := range es {
 			if strings.Contains(e.Name(), mark) {
+				// "/" is shared by the parallel workers: an entry is this case's doing only if the case names it
+				if d == "/" && !strings.Contains(src, "/"+e.Name()) {
+					continue
+				}
 				p := filepath.Join(d, e.Name())
 				add("file", "a marker-named entry appeared on the real filesystem", p)
 				os.RemoveAll(p)
@@ -493,18 +510,47 @@ func realEffects(b *realObs) []fail {
 		}
 	}
 	if p := fdPos(0); p != b.stdinPos {
-		add("stdin", "the real standard input was read", fmt.Sprintf("offset %d -> %d", b.stdinPos, p))
-		b.stdinPos = p
+		add("stdin", "the real standard input was read or closed", fmt.Sprintf("offset %d -> %d", b.stdinPos, p))
+		reopen(0, os.O_RDONLY)
+		syscall.Seek(0, b.stdinPos, 0)
 	}
 	if n := fdLen(os.Stdout); n != b.stdoutLen {
-		add("stdout", "bytes were written to the real standard output", fmt.Sprintf("size %d -> %d", b.stdoutLen, n))
-		b.stdoutLen = n
+		add("stdout", "the real standard output was written or closed", fmt.Sprintf("size %d -> %d", b.stdoutLen, n))
+		reopen(1, os.O_WRONLY|os.O_APPEND)
+		b.stdoutLen = fdLen(os.Stdout)
 	}
 	if n := fdLen(os.Stderr); n != b.stderrLen {
-		add("stderr", "bytes were written to the real standard error", fmt.Sprintf("size %d -> %d", b.stderrLen, n))
-		b.stderrLen = n
+		add("stderr", "the real standard error was written or closed", fmt.Sprintf("size %d -> %d", b.stderrLen, n))
+		reopen(2, os.O_WRONLY|os.O_APPEND)
+		b.stderrLen = fdLen(os.Stderr)
 	}
 	return out
+}
+
+// stdio file paths handed down by the parent (VERIF_C12_STDIO = stdin|stdout|stderr), so that a case that closed
+// a real standard stream does not poison the cases after it.
+var stdioPaths []string
+
+func reopen(fd int, flag int) {
+	if fd >= len(stdioPaths) {
+		return
+	}
+	f, err := os.OpenFile(stdioPaths[fd], flag, 0o644)
+	if err != nil {
+		return
+	}
+	if int(f.Fd()) != fd {
+		syscall.Dup2(int(f.Fd()), fd)
+		f.Close()
+	}
+	switch fd {
+	case 0:
+		os.Stdin = os.NewFile(0, "/dev/stdin")
+	case 1:
+		os.Stdout = os.NewFile(1, "/dev/stdout")
+	case 2:
+		os.Stderr = os.NewFile(2, "/dev/stderr")
+	}
 }
 
 // Worker is the sub-command `check c12-worker <shard> <n> <tier> <resultfile> <tmpdir> <skipcsv> [<only>]`.
@@ -534,6 +580,7 @@ func Worker(args []string) {
 		only, _ = strconv.Atoi(args[6])
 	}
 	cwd, _ := os.Getwd()
+	stdioPaths = strings.Split(os.Getenv("VERIF_C12_STDIO"), "|")
 	cases := caseList(thorough)
 	base := observe(cwd, tmp)
 	w := bufio.NewWriter(res)
@@ -550,7 +597,8 @@ func Worker(args []string) {
 		// a recognisable, marker-free syscall so that a strace hit can be attributed to its case
 		os.Lstat("/verif-c12-case-" + strconv.Itoa(i))
 		out := runCase(i, cases[i], only >= 0)
-		out.Fails = append(out.Fails, realEffects(&base)...)
+		m, mod := sources(cases[i].v, cases[i].in.Ctx)
+		out.Fails = append(out.Fails, realEffects(&base, m+mod)...)
 		b, _ := json.Marshal(out)
 		w.Write(b)
 		w.WriteByte('\n')
@@ -607,7 +655,7 @@ func runWorker(self, scratch string, shard, n int, tier string, only int, traced
 			cmd = exec.CommandContext(c, self, wargs...)
 		}
 		cmd.Dir = sent
-		cmd.Env = append(os.Environ(), "TMPDIR="+tmp)
+		cmd.Env = append(os.Environ(), "TMPDIR="+tmp, "VERIF_C12_STDIO="+strings.Join([]string{stdin.Name(), stdout.Name(), stderr.Name()}, "|"))
 		cmd.Stdin, cmd.Stdout, cmd.Stderr = stdin, stdout, stderr
 		runErr := cmd.Run()
 		cancel()
@@ -742,7 +790,12 @@ func Check(r *ev.Run, replay string) {
 		r.EngineError("mkdirtemp: " + err.Error())
 		return
 	}
-	defer os.RemoveAll(scratch)
+	if os.Getenv("C12_KEEP") == "" {
+		defer os.RemoveAll(scratch)
+	} else {
+		fmt.Println("scratch kept:", scratch)
+	}
+	sweepReal(r, false)
 
 	// ---- strace availability + positive control (thorough only)
 	traced := false
@@ -918,6 +971,8 @@ func Check(r *ev.Run, replay string) {
 			cases[first].in, f0.Observed, f0.Expected)
 	}
 
+	sweepReal(r, true)
+
 	// ---- strace oracle
 	if traced {
 		total, nh := 0, 0
@@ -958,6 +1013,35 @@ func Check(r *ev.Run, replay string) {
 	}
 	r.Set("rule", fmt.Sprintf("every discovered function of os (%d attrs), filepath, fmt, the print/printf/errorf/sprintf and shell-style builtins and every attribute of file objects from open/create/stdin/stdout (%d names, %d with templates, %d skipped with reason) x %d argument tuples per spelling x path spellings %v x %d contexts %v x OS supplied by {WithOS, context, both}; each case in a worker process against fresh recording OS instances: expected calls logged in order, answer observed, post-state, real cwd/env/sentinel tree//,TMPDIR/stdio untouched; thorough: all workers under strace -f -e trace=%%file,%%process, no syscall argument contains the marker. distinct = (function, tuple, serving instance, answer) and (context, supply, serving instance) keys",
 		len(moduleAttrsOS()), len(names), len(have), len(skipped), len(variants(0)), spellings(thorough), len(contexts), contexts))
+}
+
+// sweepReal removes marker-named entries from /, the temp dir and the harness cwd. Before the run that is hygiene
+// (left-overs of an aborted run); after the run every such entry that no worker attributed to a case is a finding.
+func sweepReal(r *ev.Run, report bool) {
+	cwd, _ := os.Getwd()
+	var found []string
+	for _, d := range []string{"/", os.TempDir(), cwd} {
+		es, _ := os.ReadDir(d)
+		for _, e := range es {
+			if strings.Contains(e.Name(), mark) {
+				p := filepath.Join(d, e.Name())
+				found = append(found, p)
+				os.RemoveAll(p)
+			}
+		}
+	}
+	for _, kv := range os.Environ() {
+		if strings.Contains(kv, mark) {
+			found = append(found, "env "+kv)
+		}
+	}
+	if report {
+		r.Set("real_fs_marker_entries_after_run", len(found))
+		if len(found) > 0 {
+			r.Report("real-file-unattributed", "marker-named entries exist on the real filesystem after the run: "+ev.Clip(strings.Join(found, " "), 300),
+				map[string]any{"part": "sweep"}, strings.Join(found, " "), "no file whose name contains "+mark)
+		}
+	}
 }
 
 func moduleAttrsOS() []string {
